@@ -222,7 +222,7 @@ fn cmd_replay(prop: &str, path: &str) -> i32 {
 fn cases_for(prop: &str, thorough: bool) -> u64 {
     let q = |a: u64, b: u64| if thorough { b } else { a };
     match prop {
-        "C15" | "C20" => q(120_000, 1_500_000),
+        "C15" | "C20" => q(300_000, 2_000_000),
         "C16" => q(400_000, 4_000_000),
         p if BUILDER.contains(&p) => q(300_000, 3_000_000),
         _ => q(300_000, 4_000_000),
